@@ -176,6 +176,94 @@ func linStep(state, input, output interface{}) (bool, interface{}) {
 	return true, s
 }
 
+// relaxed model: an artifact push / delete is two independent atomic steps (index entry, referrers entry).
+// Used only to classify an Illegal history: if the relaxed model explains it, the two-step update is the cause.
+type relState struct {
+	linState
+	Refs map[string]string
+}
+
+func (s relState) key() string {
+	var p []string
+	for _, d := range sortedKeys(s.Refs) {
+		p = append(p, "r"+d+">"+s.Refs[d])
+	}
+	return s.linState.key() + "#" + strings.Join(p, ";")
+}
+
+func (s relState) clone() relState {
+	n := relState{linState: s.linState.clone(), Refs: map[string]string{}}
+	for k, v := range s.Refs {
+		n.Refs[k] = v
+	}
+	return n
+}
+
+var relModel = porcupine.Model{
+	Init: func() interface{} {
+		return relState{linState: linState{Tags: map[string]string{}, Mans: map[string]string{}}, Refs: map[string]string{}}
+	},
+	Step: func(state, input, output interface{}) (bool, interface{}) {
+		s := state.(relState)
+		in := input.(linIn)
+		out := output.(linOut)
+		switch in.Kind {
+		case "addref":
+			if out.Code != 201 {
+				return true, s
+			}
+			n := s.clone()
+			n.Refs[in.Digest] = in.Subject
+			return true, n
+		case "rmref":
+			if out.Code != 202 {
+				return true, s
+			}
+			n := s.clone()
+			delete(n.Refs, in.Digest)
+			return true, n
+		case "refs":
+			var want []string
+			for d, sub := range s.Refs {
+				if sub == in.Subject {
+					want = append(want, d)
+				}
+			}
+			sort.Strings(want)
+			got := append([]string(nil), out.List...)
+			sort.Strings(got)
+			return out.Code == 200 && eqStrings(want, got), s
+		}
+		in2 := in
+		in2.Subject = ""
+		ok, ns := linStep(s.linState, in2, out)
+		n := relState{linState: ns.(linState), Refs: s.Refs}
+		return ok, n
+	},
+	Equal: func(a, b interface{}) bool { return a.(relState).key() == b.(relState).key() },
+}
+
+// relaxedExplains re-checks a history with artifact pushes / deletes split into their two steps.
+func relaxedExplains(ops []porcupine.Operation) bool {
+	var out []porcupine.Operation
+	for _, o := range ops {
+		in := o.Input.(linIn)
+		if in.Subject != "" && (in.Kind == "putman" || in.Kind == "delman") {
+			a, b := in, in
+			if in.Kind == "putman" {
+				b.Kind = "addref"
+			} else {
+				b.Kind = "rmref"
+			}
+			out = append(out, porcupine.Operation{ClientId: o.ClientId, Input: a, Call: o.Call, Output: o.Output, Return: o.Return})
+			out = append(out, porcupine.Operation{ClientId: o.ClientId + 100, Input: b, Call: o.Call, Output: o.Output, Return: o.Return})
+			continue
+		}
+		out = append(out, o)
+	}
+	return porcupine.CheckOperationsTimeout(relModel, out, 20*time.Second) == porcupine.Ok
+}
+
 var linModel = porcupine.Model{
 	Init: func() interface{} { return linState{Tags: map[string]string{}, Mans: map[string]string{}} },
 	Step: linStep,
@@ -243,12 +331,12 @@ func (c *concRun) cPutMan(client int, repo string, o *Obj, tag string) {
 	}
 }
 
-func (c *concRun) cDel(client int, repo, tag, digest string) {
+func (c *concRun) cDel(client int, repo, tag, digest, subject string) {
 	w := c.w
 	in := linIn{Kind: "deltag", Repo: repo, Tag: tag}
 	ref := tag
 	if tag == "" {
-		in = linIn{Kind: "delman", Repo: repo, Digest: digest}
+		in = linIn{Kind: "delman", Repo: repo, Digest: digest, Subject: subject}
 		ref = digest
 	}
 	call := c.stamp()
@@ -382,9 +470,9 @@ func (c *concRun) runClient(ci int, ops []Op) {
 			c.cPutMan(ci, repo, o, op.Tag)
 		case "del":
 			if op.Mode == "tag" {
-				c.cDel(ci, repo, op.Tag, "")
+				c.cDel(ci, repo, op.Tag, "", "")
 			} else {
-				c.cDel(ci, repo, "", o.digest(""))
+				c.cDel(ci, repo, "", o.digest(""), parseManifest(o.data).subject)
 			}
 		case "get":
 			if op.Mode == "tag" {
@@ -532,6 +620,17 @@ func engineConc(x *X) {
 		c.quiescentChecks()
 	}
 	c.linearizable()
+	if os.Getenv("VERIF_DUMPINDEX") != "" && !w.closed {
+		for _, repo := range p.Repos {
+			if r, err := w.srv.store.RepoGet(context.Background(), repo); err == nil {
+				idx, _ := r.IndexGet()
+				r.Done()
+				for _, d := range idx.Manifests {
+					fmt.Printf("INDEX %s %s %s %v\n", repo, d.Digest.String()[:19], d.MediaType, d.Annotations)
+				}
+			}
+		}
+	}
 	// Close must return
 	closed := false
 	wd2 := simrt.AfterFunc(limit, func() {
@@ -684,7 +783,11 @@ func (c *concRun) linearizable() {
 					}
 				}
 			}
-			w.x.viol([]string{"C11"}, "lin.illegal", linSig(kinds), fmt.Sprintf("%s: no sequential order of the %d recorded operations explains the answers (overlapping kinds: %v):\n%s", repo, len(ops), sortedKeys(kinds), strings.Join(lines, "\n")))
+			sig := linSig(kinds)
+			if relaxedExplains(ops) {
+				sig = "artifact update is two steps (index entry, referrers entry): a concurrent request sees one without the other"
+			}
+			w.x.viol([]string{"C11"}, "lin.illegal", sig, fmt.Sprintf("%s: no sequential order of the %d recorded operations explains the answers (overlapping kinds: %v):\n%s", repo, len(ops), sortedKeys(kinds), strings.Join(lines, "\n")))
 			return
 		case porcupine.Unknown:
 			w.x.out.Inconcl++
